@@ -997,6 +997,35 @@ pub fn run_c06(tier: &str, seed: u64) -> Report {
                     r.violation(format!("C06 tag-ignores-assertion {}", p.name()), format!("{}: tokens for different assertions are identical", p.name()), witness.clone());
                 }
             }
+            // re-split across a LENGTH PREFIX: if the PAE's LE64 were not injective for lengths n and n+128 (or n+256 ...),
+            // F' = F || LE64(|A|) || A[..120] and A' = A[128..] would collide with (F, A) when A[120..128] reads as LE64(|A'|)
+            for shift in [128usize, 256, 32768, 65536] {
+                let rest_len = 40 + k % 7;
+                let mut a_long: Vec<u8> = vec![b'x'; shift - 8];
+                a_long.extend_from_slice(&(rest_len as u64).to_le_bytes());
+                a_long.extend(std::iter::repeat(b'y').take(rest_len));
+                // NUL bytes are legal in &str
+                let a_str = match String::from_utf8(a_long.clone()) {
+                    Ok(s) => s,
+                    Err(_) => continue,
+                };
+                let f0 = "f0";
+                let tokl = match core_seal(p, &key, &nonce, &msg, Some(f0), Some(&a_str)).0 {
+                    Out::Ok(t) => t,
+                    _ => continue,
+                };
+                let mut f2: Vec<u8> = f0.as_bytes().to_vec();
+                f2.extend_from_slice(&(a_long.len() as u64).to_le_bytes());
+                f2.extend_from_slice(&a_long[..shift - 8]);
+                let (f2s, a2s) = match (String::from_utf8(f2.clone()), String::from_utf8(a_long[shift..].to_vec())) {
+                    (Ok(x), Ok(y)) => (x, y),
+                    _ => continue,
+                };
+                let segs: Vec<&str> = tokl.split('.').collect();
+                let tok2 = format!("{}.{}.{}.{}", segs[0], segs[1], segs[2], util::b64(&f2));
+                let c = C06Case { p, layer: Layer::Core, key: key.clone(), footer: Some(f0.into()), supplied_footer: Some(f2s), built_ia: Some(a_str.clone()), supplied_ia: Some(a2s), token: tok2, class: "length-prefix-re-split".into() };
+                c06_eval(&c, &mut r);
+            }
             // re-split attack: (F, A) -> (F', A') with F||A == F'||A'
             let f_txt = "footer-part";
             let a_txt = a1.as_str();
